@@ -3,6 +3,7 @@ import Moyo.Generated.HallTable
 import Moyo.Generated.ArithTable
 import Moyo.Generated.MagTable
 import Moyo.Generated.PointGroupTable
+import Moyo.Generated.TableChunks
 import Moyo.Generated.C16Certs
 import Moyo.Generated.C17Certs
 /-
@@ -15,9 +16,9 @@ open Moyo Moyo.Generated Moyo.TableSpec
 
 /-- Primitive operations of Hall number `h` according to the certificate (checked against the
 model's `primitiveTraverse` by clause `a:primitive` of row `h`). -/
-def hallPrimOps (h : Nat) : List HOp := unpackOps ((C16.hallPrim[h - 1]?).getD 0)
+def hallPrimOps (h : Nat) : List HOp := unpackOps ((chunkGet C16.hallPrimChunks (h - 1)).getD 0)
 
-def hallOpsCert (h : Nat) : List HOp := unpackOps ((C16.hallOps[h - 1]?).getD 0)
+def hallOpsCert (h : Nat) : List HOp := unpackOps ((chunkGet C16.hallOpsChunks (h - 1)).getD 0)
 
 /-- Allowed centring letters of the conventional cells of a Bravais class. -/
 def allowedCenterings (bravais : String) : List String :=
@@ -35,7 +36,7 @@ def arithRep (k : Nat) : List M3 := (hallPrimOps ((arithRepHall[k - 1]?).getD 0)
 def geoIdxOfArith (k : Nat) : Nat := (C16.arithGeo[k - 1]?).getD 99
 
 def hallRowIn (h : Nat) : Option HallRowIn :=
-  match hallTable[h - 1]? with
+  match chunkGet hallTableChunks (h - 1) with
   | none => none
   | some e =>
     let k := e.arithmeticNumber
@@ -44,15 +45,19 @@ def hallRowIn (h : Nat) : Option HallRowIn :=
     some {
       symbol := e.hallSymbol
       centering := e.centering
-      opsC := (C16.hallOps[h - 1]?).getD 0
-      primC := (C16.hallPrim[h - 1]?).getD 0
+      opsC := (chunkGet C16.hallOpsChunks (h - 1)).getD 0
+      primC := (chunkGet C16.hallPrimChunks (h - 1)).getD 0
+      mulC := (chunkGet C16.hallMulChunks (h - 1)).getD 0
+      parC := (chunkGet C16.hallParChunks (h - 1)).getD 0
       geoOrder := sumList hist
       geoHist := hist
       rep := arithRep k
-      arithP := m3OfList (intsOfNat 9 ((C16.arithP[h - 1]?).getD 0))
+      arithP := m3OfList (intsOfNat 9 ((chunkGet C16.arithPChunks (h - 1)).getD 0))
+      arithPerm := (chunkGet C16.arithPermChunks (h - 1)).getD 0
       allowedCentering := allowedCenterings ((bravaisNames[(C16.arithBravais[k - 1]?).getD 99]?).getD "")
-      first := hallPrimOps ((spglibHallNumbers[e.number - 1]?).getD 0)
-      aff := affOfList (intsOfNat 13 ((C16.settingConj[h - 1]?).getD 0)) }
+      first := hallPrimOps ((spglibHallNumbers.toList[e.number - 1]?).getD 0)
+      aff := affOfList (intsOfNat 13 ((chunkGet C16.settingConjChunks (h - 1)).getD 0))
+      affPerm := (chunkGet C16.settingPermChunks (h - 1)).getD 0 }
 
 def hallRowClausesAt (h : Nat) : List (String × Bool) :=
   match hallRowIn h with
@@ -68,7 +73,7 @@ def hallRowsOK (lo n : Nat) : Bool := (List.range' lo n).all hallRowOK
 /-! ### arithmetic classes -/
 
 def arithRowClauses (k : Nat) : List (String × Bool) :=
-  match arithTable[k - 1]? with
+  match arithTable.toList[k - 1]? with
   | none => [("row", false)]
   | some a =>
     let gi := geoIdxOfArith k
@@ -78,7 +83,8 @@ def arithRowClauses (k : Nat) : List (String × Bool) :=
      ("geometric-class-name", geoNames[gi]? == some a.geometricClass),
      ("bravais-class-name", bravaisNames[bi]? == some a.bravaisClass),
      ("family", (geoFamily[gi]?).isSome && geoFamily[gi]? == bravaisFamily[bi]?),
-     ("representative", (hallTable[hrep - 1]?.map (·.arithmeticNumber)) == some k && 1 ≤ hrep),
+     ("representative", ((chunkGet hallTableChunks (hrep - 1)).map (·.arithmeticNumber)) == some k && 1 ≤ hrep),
+     ("distinct", natsNodup ((arithRep k).map M3.key)),
      ("invariants", invVec rotTypes (arithRep k) == (C16.arithInv[k - 1]?).getD [])]
 
 def arithRowOK (k : Nat) : Bool := 1 ≤ k && allOK (arithRowClauses k)
@@ -90,7 +96,7 @@ has that geometric class; the order table of the test module equals the histogra
 def geoRowOK (gi : Nat) : Bool :=
   match geoRepHall[gi]?, geoHist[gi]? with
   | some h, some hist =>
-    (match hallTable[h - 1]? with
+    (match chunkGet hallTableChunks (h - 1) with
      | some e => geoIdxOfArith e.arithmeticNumber == gi && 1 ≤ h
      | none => false) &&
     (geoOrderTest.isEmpty || geoOrderTest[gi]? == some (sumList hist)) && hist.length == 10
@@ -102,12 +108,12 @@ def pairwiseDistinct {α : Type} [BEq α] : List α → Bool
 
 /-! ### magnetic rows -/
 
-def magPrimOps (u : Nat) : List HOp := unpackOps ((C17.magPrim[u - 1]?).getD 0)
+def magPrimOps (u : Nat) : List HOp := unpackOps ((chunkGet C17.magPrimChunks (u - 1)).getD 0)
 
 def magRowIn (u : Nat) : Option MagRowIn :=
-  match magHallTable[u - 1]?, magTypeTable[u - 1]? with
+  match chunkGet magHallTableChunks (u - 1), chunkGet magTypeTableChunks (u - 1) with
   | some mh, some mt =>
-    let hstd := (standardHallNumbers[mt.number - 1]?).getD 0
+    let hstd := (standardHallNumbers.toList[mt.number - 1]?).getD 0
     some {
       symbol := mh.symbol
       uni := u
@@ -116,12 +122,15 @@ def magRowIn (u : Nat) : Option MagRowIn :=
       bns := mt.bnsNumber
       number := mt.number
       ct := mt.constructType
-      opsC := (C17.magOps[u - 1]?).getD 0
-      primC := (C17.magPrim[u - 1]?).getD 0
-      refCentering := (hallTable[hstd - 1]?.map (·.centering)).getD ""
+      opsC := (chunkGet C17.magOpsChunks (u - 1)).getD 0
+      primC := (chunkGet C17.magPrimChunks (u - 1)).getD 0
+      mulC := (chunkGet C17.magMulChunks (u - 1)).getD 0
+      parC := (chunkGet C17.magParChunks (u - 1)).getD 0
+      refCentering := ((chunkGet hallTableChunks (hstd - 1)).map (·.centering)).getD ""
       ref := hallPrimOps hstd
-      aff := affOfList (intsOfNat 13 ((C17.magRefConj[u - 1]?).getD 0))
-      setC := (C17.magSet[u - 1]?).getD 0 }
+      aff := affOfList (intsOfNat 13 ((chunkGet C17.magRefConjChunks (u - 1)).getD 0))
+      affPerm := (chunkGet C17.magRefPermChunks (u - 1)).getD 0
+      setC := (chunkGet C17.magSetChunks (u - 1)).getD 0 }
   | _, _ => none
 
 def magRowClausesAt (u : Nat) : List (String × Bool) :=
@@ -135,7 +144,7 @@ def magRowsOK (lo n : Nat) : Bool := (List.range' lo n).all magRowOK
 
 /-! ### UNI ranges -/
 
-def magNumbers : List Nat := magTypeTableList.map (·.number)
+def magNumbers : List Nat := magTypeTableChunks.flatten.map (·.number)
 
 def magRanges : List (Nat × Nat) := uniRanges magNumbers
 
@@ -146,7 +155,7 @@ def magRangeOK (n : Nat) : Bool :=
   | none => false
   | some (lo, hi) =>
     1 ≤ n && lo ≤ hi &&
-    (let rows := (List.range' lo (hi + 1 - lo)).map fun u => (magTypeTable[u - 1]?, (C17.magSet[u - 1]?).getD 0)
+    (let rows := (List.range' lo (hi + 1 - lo)).map fun u => (chunkGet magTypeTableChunks (u - 1), (chunkGet C17.magSetChunks (u - 1)).getD 0)
      rows.all (fun x => (x.1.map (·.number)) == some n) &&
      (rows.filter fun x => (x.1.map (·.constructType)) == some 1).length == 1 &&
      (rows.filter fun x => (x.1.map (·.constructType)) == some 2).length == 1 &&
